@@ -545,16 +545,19 @@ def step (s : ApiState) (c : Call) : ApiState × Ret :=
       if update ∧ s.utt = .inUtt then (s, .oop)
       else if !ok then (s, .err)
       else if update ∧ s.search ≠ .none then
-        -- fsg_search_reinit: the history table is reset
-        ({ s with search := .fresh, iters := invalidate isSegS s.iters }, .count)
+        -- fsg_search_reinit: the history table is reset; since fix D130 the aligner of the re-initialised
+        -- search is released with it (its iterators die)
+        ({ s with search := .fresh, align := false, alFresh := false,
+                  iters := invalidate (fun k => isSegS k || isAliD k) s.iters }, .count)
       else (s, .count)
     | .setGrammar good =>
       if s.utt = .inUtt then (s, .oop)
       else if !good then (s, .err)
       else
-        -- decoder_set_fsg: the old search (history, lattice) is released, the aligner and the JSON stay
-        ({ s with search := .fresh, dag := false, dagFresh := false, active := false,
-                  iters := invalidate (resultDrop s.dagId s.lats) s.iters }, .ok)
+        -- decoder_set_fsg: the old search (history, lattice) is released and, since fix D130, the aligner of the
+        -- replaced search with it (its iterators die); the JSON stays
+        ({ s with search := .fresh, dag := false, dagFresh := false, active := false, align := false, alFresh := false,
+                  iters := invalidate (fun k => resultDrop s.dagId s.lats k || isAliD k) s.iters }, .ok)
     | _ => (s, .oop)
 
 def run (s : ApiState) : List Call → ApiState
